@@ -24,7 +24,7 @@ use vh::{fnv, Args, Recorder, Rng};
 
 // ------------------------------------------------------------------ commands
 
-struct Cmd {
+pub struct Cmd {
     id: CmdId,
     prio: Priority,
     parent: Prior<Address>,
@@ -49,7 +49,7 @@ impl Command for Cmd {
     }
 }
 
-fn cmd_id(n: u64) -> CmdId {
+pub fn cmd_id(n: u64) -> CmdId {
     let mut b = b"c11-cmd-".to_vec();
     b.extend_from_slice(&n.to_le_bytes());
     hash_for_testing_only(&b)
@@ -58,7 +58,7 @@ fn cmd_id(n: u64) -> CmdId {
 // ------------------------------------------------------------------ plan (what to build)
 
 #[derive(Clone, Debug, PartialEq)]
-enum PPrior {
+pub enum PPrior {
     None,
     Single(u64),
     Merge(u64, u64),
@@ -67,30 +67,30 @@ enum PPrior {
 /// One segment to write: commands `ids` (small integers), the first one a child of `prior`
 /// (command ids); for merges the recorded last common ancestor.
 #[derive(Clone, Debug)]
-struct PlanSeg {
-    prior: PPrior,
-    lca: Option<u64>,
-    ids: Vec<u64>,
+pub struct PlanSeg {
+    pub prior: PPrior,
+    pub lca: Option<u64>,
+    pub ids: Vec<u64>,
 }
 
 /// The harness's own mirror of the command DAG (independent of the storage code).
 #[derive(Default, Clone)]
-struct Mirror {
+pub struct Mirror {
     /// parents of node i (indices)
-    parents: Vec<Vec<usize>>,
-    mc: Vec<u64>,
+    pub parents: Vec<Vec<usize>>,
+    pub mc: Vec<u64>,
     /// small-integer id of node i, and the inverse map
-    ids: Vec<u64>,
-    by_id: BTreeMap<u64, usize>,
+    pub ids: Vec<u64>,
+    pub by_id: BTreeMap<u64, usize>,
     /// anc*(i) as a bitset (i itself included)
-    anc: Vec<Vec<u64>>,
+    pub anc: Vec<Vec<u64>>,
 }
 
 impl Mirror {
-    fn n(&self) -> usize {
+    pub fn n(&self) -> usize {
         self.ids.len()
     }
-    fn add(&mut self, id: u64, parents: Vec<usize>) -> usize {
+    pub fn add(&mut self, id: u64, parents: Vec<usize>) -> usize {
         let i = self.n();
         let words = i / 64 + 1;
         let mut bits = vec![0u64; words];
@@ -110,15 +110,15 @@ impl Mirror {
         i
     }
     /// a ∈ anc*(b)
-    fn anc_self(&self, a: usize, b: usize) -> bool {
+    pub fn anc_self(&self, a: usize, b: usize) -> bool {
         self.anc[b].get(a / 64).map_or(false, |w| w >> (a % 64) & 1 == 1)
     }
-    fn comparable(&self, a: usize, b: usize) -> bool {
+    pub fn comparable(&self, a: usize, b: usize) -> bool {
         self.anc_self(a, b) || self.anc_self(b, a)
     }
     /// c is a common ancestor-or-self of l and r below which nothing else of anc*(l) ∪ anc*(r)
     /// lives: every x in the union with mc(x) <= mc(c) is an ancestor-or-self of c.
-    fn is_dominator(&self, c: usize, l: usize, r: usize) -> bool {
+    pub fn is_dominator(&self, c: usize, l: usize, r: usize) -> bool {
         if !(self.anc_self(c, l) && self.anc_self(c, r)) {
             return false;
         }
@@ -126,12 +126,12 @@ impl Mirror {
             !((self.anc_self(x, l) || self.anc_self(x, r)) && self.mc[x] <= self.mc[c]) || self.anc_self(x, c)
         })
     }
-    fn dominators(&self, l: usize, r: usize) -> Vec<usize> {
+    pub fn dominators(&self, l: usize, r: usize) -> Vec<usize> {
         let mut v: Vec<usize> = (0..self.n()).filter(|&c| self.is_dominator(c, l, r)).collect();
         v.sort_by_key(|&c| std::cmp::Reverse(self.mc[c]));
         v
     }
-    fn frontier(&self) -> Vec<usize> {
+    pub fn frontier(&self) -> Vec<usize> {
         let mut has_child = vec![false; self.n()];
         for ps in &self.parents {
             for &p in ps {
@@ -142,7 +142,7 @@ impl Mirror {
     }
 }
 
-fn seg_len(rng: &mut Rng, mode: u8) -> usize {
+pub fn seg_len(rng: &mut Rng, mode: u8) -> usize {
     match mode {
         // many short segments: deep segment chains, skip lists get built
         0 => *rng.pick(&[1, 1, 1, 1, 2, 2, 3]),
@@ -153,7 +153,7 @@ fn seg_len(rng: &mut Rng, mode: u8) -> usize {
 }
 
 /// Generates a build plan together with its mirror.
-fn gen_plan(rng: &mut Rng, big: bool) -> (String, Vec<PlanSeg>) {
+pub fn gen_plan(rng: &mut Rng, big: bool) -> (String, Vec<PlanSeg>) {
     let shape = rng.below(10);
     let lmode = rng.below(3) as u8;
     let budget = if big { rng.range(30, 420) } else { rng.range(12, 150) } as usize;
@@ -219,53 +219,53 @@ fn gen_plan(rng: &mut Rng, big: bool) -> (String, Vec<PlanSeg>) {
 
 // ------------------------------------------------------------------ real build
 
-struct SegDump {
-    idx: u64,
-    first: u64,
-    len: u64,
-    prior: Prior<Location>,
-    skips: Vec<Location>,
-    lca: Option<Location>,
-    ids: Vec<u64>,
+pub struct SegDump {
+    pub idx: u64,
+    pub first: u64,
+    pub len: u64,
+    pub prior: Prior<Location>,
+    pub skips: Vec<Location>,
+    pub lca: Option<Location>,
+    pub ids: Vec<u64>,
 }
 
-struct Built {
-    provider: MemStorageProvider,
-    graph: aranya_runtime::GraphId,
-    mirror: Mirror,
+pub struct Built {
+    pub provider: MemStorageProvider,
+    pub graph: aranya_runtime::GraphId,
+    pub mirror: Mirror,
     /// location of node i
-    loc: Vec<Location>,
-    by_loc: BTreeMap<(u64, u64), usize>,
-    segs: Vec<SegDump>,
+    pub loc: Vec<Location>,
+    pub by_loc: BTreeMap<(u64, u64), usize>,
+    pub segs: Vec<SegDump>,
 }
 
-fn show_loc(l: Location) -> String {
+pub fn show_loc(l: Location) -> String {
     format!("{}:{}", l.segment.get(), l.max_cut.get())
 }
-fn show_locs(ls: &[Location]) -> String {
+pub fn show_locs(ls: &[Location]) -> String {
     format!("[{}]", ls.iter().map(|l| show_loc(*l)).collect::<Vec<_>>().join(","))
 }
-fn show_list(ls: &[Location]) -> String {
+pub fn show_list(ls: &[Location]) -> String {
     if ls.is_empty() {
         "-".into()
     } else {
         ls.iter().map(|l| show_loc(*l)).collect::<Vec<_>>().join(",")
     }
 }
-fn show_prior(p: Prior<Location>) -> String {
+pub fn show_prior(p: Prior<Location>) -> String {
     match p {
         Prior::None => "n".into(),
         Prior::Single(a) => format!("s:{}", show_loc(a)),
         Prior::Merge(a, b) => format!("m:{}:{}", show_loc(a), show_loc(b)),
     }
 }
-fn parse_loc(s: &str) -> Option<Location> {
+pub fn parse_loc(s: &str) -> Option<Location> {
     let (a, b) = s.split_once(':')?;
     Some(Location::new(SegmentIndex::new(a.parse().ok()?), MaxCut::new(b.parse().ok()?)))
 }
 
 /// Executes the plan against a real storage; writes one `seg` line per written segment.
-fn build(rec: &mut Recorder, plan: &[PlanSeg]) -> Result<Built, String> {
+pub fn build(rec: &mut Recorder, plan: &[PlanSeg]) -> Result<Built, String> {
     let policy = PolicyId::new(0);
     let mut provider = MemStorageProvider::default();
     let mut mirror = Mirror::default();
@@ -400,7 +400,7 @@ fn build(rec: &mut Recorder, plan: &[PlanSeg]) -> Result<Built, String> {
 // ------------------------------------------------------------------ oracles on the layout
 
 /// the real layout must present the planned graph; real skip lists must be sound
-fn check_layout(rec: &mut Recorder, b: &Built, plan: &[PlanSeg]) {
+pub fn check_layout(rec: &mut Recorder, b: &Built, plan: &[PlanSeg]) {
     let m = &b.mirror;
     for (k, (d, ps)) in b.segs.iter().zip(plan).enumerate() {
         if d.ids != ps.ids {
@@ -458,18 +458,18 @@ fn check_layout(rec: &mut Recorder, b: &Built, plan: &[PlanSeg]) {
 
 // ------------------------------------------------------------------ queries
 
-struct Q<'a> {
-    b: &'a mut Built,
-    buf: TraversalBuffer,
-    heads: Vec<usize>,
+pub struct Q<'a> {
+    pub b: &'a mut Built,
+    pub buf: TraversalBuffer,
+    pub heads: Vec<usize>,
 }
 
-fn id_of_addr(m: &Mirror, id: u64, mc: u64) -> Option<usize> {
+pub fn id_of_addr(m: &Mirror, id: u64, mc: u64) -> Option<usize> {
     m.by_id.get(&id).copied().filter(|&i| m.mc[i] == mc)
 }
 
 impl Q<'_> {
-    fn exec(&mut self, rec: &mut Recorder, line: &str) {
+    pub fn exec(&mut self, rec: &mut Recorder, line: &str) {
         let t: Vec<&str> = line.split(' ').collect();
         let num = |s: &str| s.parse::<u64>().ok();
         let graph = self.b.graph;
@@ -589,7 +589,7 @@ impl Q<'_> {
         }
     }
 
-    fn failing_input(&self, rec: &Recorder, line: &str) -> Vec<String> {
+    pub fn failing_input(&self, rec: &Recorder, line: &str) -> Vec<String> {
         // the build lines of the case + the committed heads + the failing query
         let mut v: Vec<String> =
             rec.current_case_lines().into_iter().filter(|l| l == "new" || l.starts_with("seg ")).collect();
@@ -601,7 +601,7 @@ impl Q<'_> {
         v
     }
 
-    fn finish_found(
+    pub fn finish_found(
         &mut self,
         rec: &mut Recorder,
         line: &str,
@@ -631,7 +631,7 @@ impl Q<'_> {
 }
 
 /// all queries of one case, as request lines
-fn gen_queries(rng: &mut Rng, b: &Built, exhaustive_limit: usize, samples: usize) -> Vec<String> {
+pub fn gen_queries(rng: &mut Rng, b: &Built, exhaustive_limit: usize, samples: usize) -> Vec<String> {
     let m = &b.mirror;
     let n = m.n();
     let mut q = vec![];
@@ -708,7 +708,7 @@ fn gen_queries(rng: &mut Rng, b: &Built, exhaustive_limit: usize, samples: usize
     q
 }
 
-fn plan_from_lines(lines: &[String]) -> Result<(Vec<PlanSeg>, Vec<String>), String> {
+pub fn plan_from_lines(lines: &[String]) -> Result<(Vec<PlanSeg>, Vec<String>), String> {
     // `seg` lines → plan (priors resolved to command ids through the earlier lines); the rest are queries
     let mut at: BTreeMap<(u64, u64), u64> = BTreeMap::new();
     let mut plan = vec![];
@@ -744,7 +744,7 @@ fn plan_from_lines(lines: &[String]) -> Result<(Vec<PlanSeg>, Vec<String>), Stri
     Ok((plan, queries))
 }
 
-fn run_case(rec: &mut Recorder, plan: &[PlanSeg], queries: Option<Vec<String>>, rng: &mut Rng, limits: (usize, usize)) {
+pub fn run_case(rec: &mut Recorder, plan: &[PlanSeg], queries: Option<Vec<String>>, rng: &mut Rng, limits: (usize, usize)) {
     let mut b = match build(rec, plan) {
         Ok(b) => b,
         Err(e) => {
@@ -820,8 +820,8 @@ fn main() {
             rec.count("query:bounds");
         }
     }
-    let cases = args.budget(36, 260);
-    let limits = if big { (90, 6000) } else { (64, 1500) };
+    let cases = args.budget(48, 260);
+    let limits = if big { (120, 6000) } else { (90, 3000) };
     for c in 0..cases {
         let (name, plan) = gen_plan(&mut rng, big);
         rec.begin_case();
